@@ -1,4 +1,4 @@
-import BoxoModel.C22.Lemmas
+import BoxoModel.C22.Recovery
 /-!
 # C23 — Pin state survives crashes consistently
 
@@ -69,6 +69,84 @@ theorem c23_keeps_pins (dag : Dag) (s : St) (op : Op) (n : Nat) (h : Inv s) (c :
   · exact recPinned_mono dag _ _ (fun id pp hp => by rw [hrecs]; exact hs id pp hp) c hb
   · exact recPinned_mono dag _ _ (fun id pp hp => by rw [hrecs]; exact hs id pp hp) c ha
 
+/-! ### a crash during the recovery itself
+
+`crashReopen2 dag s op n j`: the process stops after n writes of the call, is restarted, stops again
+after j writes of New + rebuildIndexes, and is restarted once more. -/
+
+/-- every prefix of the recovery's own writes leaves a safe image again (rebuildIndexes only adds index
+entries of existing records; the dirty flag is cleared by its last write) -/
+theorem c23_recovery_crash_image_safe (dag : Dag) (s : St) (op : Op) (n j : Nat) (h : Inv s) :
+    ((s.store.applyAll ((step dag s op).1.log.take n)).applyAll
+      ((crashReopen dag s op n).log.take j)).Safe :=
+  (reopen_tr _ _ _ (c23_crash_image_safe dag s op n h) (applyAll_nodup _ _ h.nodup)).1.2 j
+
+/-- the second restart yields a consistent pinner satisfying the invariant, with the same pin records -/
+theorem c23_recovery_crash_reopen_inv (dag : Dag) (s : St) (op : Op) (n j : Nat) (h : Inv s) :
+    Inv (crashReopen2 dag s op n j) ∧
+    (crashReopen2 dag s op n j).store.recs = (s.store.applyAll ((step dag s op).1.log.take n)).recs := by
+  have hs := c23_crash_image_safe dag s op n h
+  have hnd := applyAll_nodup ((step dag s op).1.log.take n) s.store h.nodup
+  have hcr : crashReopen dag s op n = reopenStore (s.store.applyAll ((step dag s op).1.log.take n))
+      (step dag s op).1.nextId (step dag s op).1.present := rfl
+  obtain ⟨ht, hnr⟩ := reopen_tr (s.store.applyAll ((step dag s op).1.log.take n))
+    (step dag s op).1.nextId (step dag s op).1.present hs hnd
+  rw [← hcr] at ht hnr
+  have hrecs : ((s.store.applyAll ((step dag s op).1.log.take n)).applyAll
+      ((crashReopen dag s op n).log.take j)).recs = (s.store.applyAll ((step dag s op).1.log.take n)).recs :=
+    applyAll_noRecW _ _ (fun w hw => hnr w (List.mem_of_mem_take hw))
+  have hn : (crashReopen dag s op n).nextId = (step dag s op).1.nextId := by
+    rw [hcr]
+    exact (reopen_inv _ _ _ hs hnd (crash_fresh dag s op n h)).2.2.1
+  have := reopen_inv ((s.store.applyAll ((step dag s op).1.log.take n)).applyAll
+      ((crashReopen dag s op n).log.take j)) (crashReopen dag s op n).nextId (crashReopen dag s op n).present
+    (ht.2 j) (applyAll_nodup _ _ hnd) (by
+      intro id hid
+      have := crash_fresh dag s op n h id (by rw [← hn]; exact hid)
+      simpa [Store.rec?, hrecs] using this)
+  refine ⟨this.1, ?_⟩
+  show (reopenStore _ _ _).store.recs = _
+  rw [this.2.1, hrecs]
+
+/-- … and no pin is lost by the double crash either -/
+theorem c23_recovery_crash_keeps_pins (dag : Dag) (s : St) (op : Op) (n j : Nat) (h : Inv s) (c : Nat)
+    (hb : Pinned dag s.store c) (ha : Pinned dag (step dag s op).1.store c) :
+    Pinned dag (crashReopen2 dag s op n j).store c := by
+  have h1 := c23_keeps_pins dag s op n h c hb ha
+  have i1 := c23_reopen_inv dag s op n h
+  obtain ⟨i2, r2⟩ := c23_recovery_crash_reopen_inv dag s op n j h
+  rw [pinned_iff_recPinned dag _ i1.cons] at h1
+  rw [pinned_iff_recPinned dag _ i2.cons]
+  refine recPinned_mono dag _ _ (fun id pp hp => ?_) c h1
+  simpa [Store.rec?, r2, (crashReopen_spec dag s op n h).2] using hp
+
+/-! ### a datastore write that fails (I/O error instead of a crash)
+
+`stepIO dag s op k`: the k-th write attempt of the call fails.  The derived model (validated by the
+correspondence with scripted Put/Delete failures) says: a failed flag write is ignored; any other failed
+write makes the call return the error at once. -/
+
+/-- the live pinner after a failed write never has an index entry without its pin record -/
+theorem c23_ioerr_no_orphan (dag : Dag) (s : St) (op : Op) (k : Nat) (h : Inv s)
+    (he : (stepIO dag s op k).res = none) : (stepIO dag s op k).st.store.NoOrphan :=
+  stepIO_noOrphan dag h op k he
+
+/-- the datastore left by a call that returned the injected error is exactly the crash image after k
+writes (unless the failed write was addPin's name-index entry, where one compensating delete follows);
+restarting the pinner on it is `crashReopen`, so `c23_reopen_consistent` and `c23_keeps_pins` apply -/
+theorem c23_ioerr_restart (dag : Dag) (s : St) (op : Op) (k : Nat)
+    (he : (stepIO dag s op k).res = none)
+    (hn : ∀ a b, (step dag s op).1.log[k]? ≠ some (.addIdx .N a b)) :
+    (stepIO dag s op k).st.store = s.store.applyAll ((step dag s op).1.log.take k) ∧
+    reopenStore (stepIO dag s op k).st.store (step dag s op).1.nextId (step dag s op).1.present =
+      crashReopen dag s op k := by
+  obtain ⟨comp, _, hc, e⟩ := stepIO_abort dag s op k he
+  have := hc hn
+  subst this
+  have e' : (stepIO dag s op k).st.store = s.store.applyAll ((step dag s op).1.log.take k) := by
+    simpa [Store.applyAll] using e
+  exact ⟨e', by rw [e']; rfl⟩
+
 /-! ### the code before the fix violates the property (witness found by the harness, replayed here) -/
 
 /-- 0 → {1}; every block present -/
@@ -98,5 +176,10 @@ example : (exT1.store.applyAll ((step exDag23 exT1 (.pinMode 1 1 3 .ok)).1.log.t
     (crashReopen exDag23 exT1 (.pinMode 1 1 3 .ok) 2).store.idxD = [(1, 2)] ∧
     (crashReopen exDag23 exT1 (.pinMode 1 1 3 .ok) 2).store.idxN = [(1, 1), (3, 2)] := by decide
 example : Inv exT1 := c23_inv_step _ _ _ (c23_inv_init _)
+/-- an I/O error can hide a pin from the live pinner although the call returned the error: Unpin(0) whose
+3rd write (the name-index delete) fails has already deleted the cid index entry; the restart restores it -/
+example : (stepIO exDag23 exT1 (.unpin 0 true .ok) 2).res = none ∧
+    isPinnedWithType exDag23 (stepIO exDag23 exT1 (.unpin 0 true .ok) 2).st 0 5 = .no ∧
+    isPinnedWithType exDag23 (crashReopen exDag23 exT1 (.unpin 0 true .ok) 2) 0 5 = .recursive := by decide
 
 end C22
